@@ -186,4 +186,28 @@ partial def obsVal (S : Schema) : Val → String
   | .dict ks vs => s!"D {ks.length}" ++ String.join ((ks.zip vs).map fun (k, v) => " " ++ obsVal S k ++ " " ++ obsVal S v)
   | v => showVal v
 
+
+/-- presence-level observation: like `obsVal` without the raw `is_set` bits, and with a
+    sub-message that is not on the wire and equals a fresh instance shown as `fresh`
+    (reading an attribute materialises defaults; that must stay invisible here) -/
+partial def obsPVal (S : Schema) : Val → String
+  | .msg c sl ow _ cur =>
+    let fs := fieldsOf S c
+    let items := (List.range sl.length).map fun i =>
+      match fs[i]?, sl[i]? with
+      | some f, some v =>
+        if hidden f i cur then " [AE]"
+        else
+          match materialize S f v with
+          | .msg c' sl' ow' u' cur' =>
+            if !ow' && !f.repeated && eqDefault S (.msg c') (.msg c' sl' ow' u' cur') && u'.isEmpty then " [fresh]"
+            else s!" [{obsPVal S (.msg c' sl' ow' u' cur')}]"
+          | v' => s!" [{obsPVal S v'}]"
+      | _, _ => " [?]"
+    s!"m {c} {if ow then 1 else 0} {cur.length}" ++ String.join (cur.map fun x => " " ++ showOptNat x)
+      ++ s!" {sl.length}" ++ String.join items
+  | .list xs => s!"l {xs.length}" ++ String.join (xs.map fun x => " " ++ obsPVal S x)
+  | .dict ks vs => s!"D {ks.length}" ++ String.join ((ks.zip vs).map fun (k, v) => " " ++ obsPVal S k ++ " " ++ obsPVal S v)
+  | v => showVal v
+
 end Drv
